@@ -347,10 +347,9 @@ class fortran_cleaner:
                         self.state.pop()
                         inbuffer.putback(char)
                 elif self.state[-1] == "DOUBLE_QUOTATION":
-                    if char == "\\":
-                        self.state.append("ESCAPING")
-                        self.outbuf.append_nonspace(char)
-                    elif char == '"':
+                    # A backslash is an ordinary character of a Fortran
+                    # character literal: it does not escape the quote.
+                    if char == '"':
                         self.state.pop()
                         self.outbuf.append_nonspace(char)
                     elif char == "&":
@@ -359,10 +358,7 @@ class fortran_cleaner:
                     else:
                         self.outbuf.append_nonspace(char)
                 elif self.state[-1] == "SINGLE_QUOTATION":
-                    if char == "\\":
-                        self.state.append("ESCAPING")
-                        self.outbuf.append_nonspace(char)
-                    elif char == "'":
+                    if char == "'":
                         self.state.pop()
                         self.outbuf.append_nonspace(char)
                     elif char == "&":
